@@ -69,6 +69,14 @@ func (p *c15) Init(tier string) {
 	add(int(math.MinInt64))
 	add(float64(1 << 63))
 	add(-float64(1 << 63))
+	// beyond 2^24 a float32 cannot hold every integer: 32-bit integers around it, and the doubles that
+	// single precision cannot hold
+	add(int32(16777217))
+	add(int32(-16777217))
+	add(int32(16777216))
+	add(float32(16777216))
+	add(float64(16777217))
+	add(uint32(16777217))
 	for _, v := range []float32{-1, -0.5, 0, 1, 1.5, 2.5, 128, 65536} {
 		add(v)
 	}
